@@ -774,15 +774,16 @@ def truncate(c, m):
     return d
 
 
-# Call forms on which the UNCHANGED library itself gives different answers for int64 and float64 inputs once coordinate gaps exceed
-# ~3e9 (measured on /repo, see reports/C20.md): int64 wrap-around in np.power(points - point, 2) (knee_ranking.distances), in the
-# third-party uts.gradient.cfd/csd that curvature / dfdt / zmethod call on the caller's integer arrays, in the x-on-y fit of
-# linear_hv_residuals / linear_fit_transform(vertical=True); the z-method loop also runs for minutes at these magnitudes.  They are
-# reported as a finding class, not re-detected on every run: the big-magnitude stream leaves these forms out.
-BIGINT_OVERFLOW_IN_BASELINE = {'curvature.knee', 'curvature.multi_knee', 'dfdt.get_knee', 'dfdt.knee', 'dfdt.multi_knee', 'dfdt.get_knee_gradient',
+# Open finding C20:int64-wraparound (known_findings.json): call forms that compute products / squares in the input's own int64 dtype
+# (np.power(points - point, 2) in knee_ranking.distances; the third-party uts.gradient.cfd/csd that curvature / dfdt / zmethod call on
+# the caller's integer arrays; the x-on-y fit of linear_hv_residuals / linear_fit_transform(vertical=True)) and therefore answer
+# differently for int64 and float64 once |coordinate differences| exceed ~3e9.  They ARE in the big-magnitude stream; a case gets the
+# finding key only if the form is listed AND the int64 input has a magnitude above 2^31 AND the int64-vs-float64 comparison is the only
+# thing that fails.  Any other form, any smaller magnitude, any other kind of failure is a VIOLATION.
+INT64_WRAPAROUND_FORMS = {'curvature.knee', 'curvature.multi_knee', 'dfdt.get_knee', 'dfdt.knee', 'dfdt.multi_knee',
                                'knee_ranking.distances', 'linear_fit.linear_fit_transform', 'linear_fit.linear_fit_transform_points',
                                'linear_fit.linear_hv_residuals', 'linear_fit.linear_hv_residuals_points', 'multi_knee.multi_knee',
-                               'zmethod.getPoints', 'zmethod.knees', 'zmethod.knees/range', 'zmethod.knees2', 'zmethod.map_index'}
+                               'zmethod.getPoints', 'zmethod.knees', 'zmethod.knees/range', 'zmethod.knees2'}
 
 
 def one_run(c, tag, rnd, build_case=None, reuse=None):
@@ -1215,8 +1216,6 @@ class C20:
         # 5. integer magnitudes up to 2^41 for the int64-vs-float64 comparison
         for rep in range(1 if Q else 8):
             for fn in names:
-                if fn in BIGINT_OVERFLOW_IN_BASELINE:
-                    continue
                 if 'points' in used_keys(fn) or 'expected' in used_keys(fn) or 'distinct' in used_keys(fn):
                     for r2_ in range(2 if is_decision(fn) or fn.startswith('evaluation.') else 1):
                         add(fn, 'bigint', family=rng.choice(['chordhug', 'grid', 'plateau']), n=rng.randint(5, 12))
@@ -1432,11 +1431,30 @@ class C20:
     def finding_key(self, c):
         if c['kind'] == 'link' and c.get('mirror'):
             return '%s.%s:%s' % (c['module'].split('.', 1)[-1], c['scope'], DIAG.get(c['mirror'], '?'))
+        if c['kind'] == 'dyn' and c['fn'] in INT64_WRAPAROUND_FORMS and self.only_int64_differs(c) and self.magnitude(c) > 2 ** 31:
+            return 'C20:int64-wraparound'
         if c['kind'] == 'dyn' and c.get('link_exc') and not self.other_failure(c):
             for t_, e_ in c.get('exc') or []:
                 if e_.startswith('@'):
                     return e_[1:].split('@', 1)[0]          # <module>.<function that raised>:<exception type>
         return None
+
+    @staticmethod
+    def only_int64_differs(c):
+        """nothing modified, no linking-kind exception, every run equals the base run except the int64 presentation (tag 4)"""
+        runs = c.get('runs') or []
+        if not runs or not c.get('intvals'):
+            return False
+        r0 = runs[0][2]
+        bad = [t for t, u, r in runs if (not u) or r[:2] == [7, 1] or r != r0]
+        return bad == [4] and all(u for t, u, r in runs) and not any(r[:2] == [7, 1] for t, u, r in runs)
+
+    @staticmethod
+    def magnitude(c):
+        try:
+            return max(abs(v) for p in c['points'] for v in p)
+        except Exception:
+            return 0
 
     @staticmethod
     def other_failure(c):
